@@ -288,6 +288,32 @@ func (r *run) exec() {
 	}
 	ops := 0
 	r.afterOp("init")
+	if !r.bulk && !r.slices && r.max <= 8 && t.OneIn(3, "cfg-deep-churn") {
+		// deep-churn shape: fill a small-fan-out tree to 50-130 objects (four
+		// and more levels), then churn at that population — elimination
+		// cascades, orphans re-inserted across subtrees, root splits caused by
+		// a Delete — with queries after every few mutations
+		target := 50 + t.Choose(80, "deep-target")
+		for len(r.model) < target && r.res.Viol == nil && r.res.Aborted == "" {
+			ops++
+			r.insert()
+		}
+		r.res.Probe("deep-churn-history")
+		churn := 40 + t.Choose(160, "deep-churn-ops")
+		order := t.Choose(4, "deep-del-order")
+		for i := 0; i < churn && r.res.Viol == nil && r.res.Aborted == ""; i++ {
+			ops++
+			switch t.Choose(7, "deep-op") {
+			case 0, 1, 2:
+				r.deletePresent(order)
+			case 3, 4:
+				r.insert()
+			default:
+				r.query()
+			}
+		}
+		budget = ops + 120
+	}
 	for r.res.Viol == nil && r.res.Aborted == "" && ops < budget {
 		// phase
 		phase := t.Choose(6, "phase") // 0 grow,1 churn,2 drain,3 drain-all,4 refill-burst,5 queries
